@@ -333,6 +333,13 @@ def canon(w):
             tuple(o for o in w.objs if w.objs[o] is None))
 
 
+PROBES = [("set", o, a, 100 + i) for i, (o, a) in enumerate(
+    (o, a) for o in "abc" for a in "xy")] + \
+    [("lop", o, a, "append") for (o, a) in
+     (("a", "l"), ("b", "l"), ("b", "m"), ("c", "l"))] + \
+    [("lop", "a", "l", "ext_del"), ("lop", "b", "l", "setitem0")]
+
+
 def run_history(ctx, hist):
     w = World()
     for i, ev in enumerate(hist):
@@ -341,7 +348,15 @@ def run_history(ctx, hist):
         ok = step(ctx if i == len(hist) - 1 else _QUIET, w, ev, hist)
         if not ok and i == len(hist) - 1:
             return False, None
-    return True, canon(w)
+    key = canon(w)
+    if hist and hist[-1][0] in ("sync", "unsync", "gc"):
+        # probe: one more change on every attribute of every live object
+        # (checks convergence / isolation one step beyond the depth bound)
+        for pev in PROBES:
+            if enabled(w, pev):
+                if not step(ctx, w, pev, hist + [("probe",) + pev]):
+                    return False, None
+    return True, key
 
 
 class _QuietCtx:
